@@ -76,7 +76,7 @@ def run_sqlite(c):
 def run_csv(c):
     d = tempfile.mkdtemp(prefix='c06_', dir=os.environ.get('VERIF_SCRATCH'))
     try:
-        inp, joinp, outp = os.path.join(d, 'in.csv'), os.path.join(d, 'b.csv'), os.path.join(d, 'out.csv')
+        inp, joinp, outp = os.path.join(d, 'in.csv'), os.path.join(d, 'jt.csv'), os.path.join(d, 'out.csv')
         with open(inp, 'wb') as f:
             f.write(to_csv_bytes(c['A'], c.get('hdr')))
         with open(joinp, 'wb') as f:
